@@ -818,7 +818,9 @@ def module_item(item, col):
                 n0 = len(lg.checkpoint_path["net"])
                 try:
                     with quiet():
-                        lg.record_epoch("net", m, **kw)
+                        # odd versions hand over another object with the same content (a clone, as a loop that rebuilds its
+                        # module or records a freshly made target network does): the checkpoint is of what was handed over
+                        lg.record_epoch("net", m if k % 2 == 0 else nnx.clone(m), **kw)
                 except Exception as e:  # noqa: BLE001
                     col.tick(1)
                     col.violation(SIG.format(route, K_RAISE), dict(base, version=k, raised=f"{type(e).__name__}: {str(e)[:300]}"))
